@@ -131,7 +131,15 @@ def main():
         if inv not in r["violated"]:
             failures.append(f"{neg} must violate {inv}")
         print(f"  PathCore     {neg} -> violated {r['violated']}")
-    from .checks.purity import SOLVER_OBJECT_NEG
+    from .checks.purity import SOLVER_OBJECT_NEG, APALACHE_STEPS
+    for init, inv, length, want in APALACHE_STEPS:
+        try:
+            r = tlc.apalache("MC_SolverObject", init, inv, length)
+            if r["outcome"] != want:
+                failures.append(f"Apalache MC_SolverObject {init}/{inv}/{length}: {r['outcome']}, expected {want}")
+            print(f"  SolverObject apalache --init={init} --inv={inv} --length={length} -> {r['outcome']} (expected {want})")
+        except tlc.TLCError as e:
+            failures.append(f"Apalache MC_SolverObject {init}/{inv}: {str(e)[:300]}")
     for neg, inv in SOLVER_OBJECT_NEG:
         r = tlc.run("SolverObject", neg, timeout=300)
         if inv not in r["violated"]:
